@@ -44,6 +44,7 @@ edn_result_t edn_read_with_options(const char* input, size_t length,
     }
 
     parser.discard_mode = false;
+    parser.eof_between_forms = false;
 
     result.value = edn_read_value(&parser);
     result.error = parser.error;
@@ -80,7 +81,8 @@ edn_result_t edn_read_with_options(const char* input, size_t length,
     }
 
     /* Handle EOF error with eof_value option */
-    if (result.error == EDN_ERROR_UNEXPECTED_EOF && options != NULL && options->eof_value != NULL) {
+    if (result.error == EDN_ERROR_UNEXPECTED_EOF && parser.eof_between_forms && options != NULL &&
+        options->eof_value != NULL) {
         if (parser.arena != NULL) {
             edn_arena_destroy(parser.arena);
         }
@@ -449,12 +451,14 @@ restart:
             if (!edn_skip_whitespace(parser)) {
                 parser->error = EDN_ERROR_UNEXPECTED_EOF;
                 parser->error_message = "Unexpected end of input";
+                parser->eof_between_forms = (parser->depth == 0);
                 return NULL;
             }
         }
     } else {
         parser->error = EDN_ERROR_UNEXPECTED_EOF;
         parser->error_message = "Unexpected end of input";
+        parser->eof_between_forms = (parser->depth == 0);
         return NULL;
     }
 
